@@ -1,1 +1,218 @@
+/-
+Helper lemmas for the C09 model (`Pyiga.Model.Galerkin`): list bookkeeping of the COO
+construction, duplicate summation, bridge from the model's `List.range` sums to `Finset` sums.
+-/
 import Pyiga.Model.Galerkin
+import Mathlib.Tactic.Ring
+import Mathlib.Tactic.Linarith
+import Mathlib.Algebra.BigOperators.Group.Finset.Basic
+import Mathlib.Algebra.BigOperators.Ring.Finset
+import Mathlib.Algebra.BigOperators.Intervals
+import Mathlib.Algebra.Order.BigOperators.Group.Finset
+import Mathlib.Algebra.Order.BigOperators.Ring.Finset
+
+namespace Pyiga.Galerkin
+open Finset
+
+/-! ### lengths of `repeat` / `tile` / `mgrid` -/
+
+section Lists
+variable {β : Type}
+
+theorem repeatEach_cons (x : β) (l : List β) (n : Nat) :
+    repeatEach (x :: l) n = List.replicate n x ++ repeatEach l n := by
+  simp [repeatEach]
+
+theorem tile_succ (l : List β) (n : Nat) : tile l (n + 1) = l ++ tile l n := by
+  simp [tile, List.replicate_succ]
+
+@[simp] theorem repeatEach_nil (n : Nat) : repeatEach ([] : List β) n = [] := rfl
+@[simp] theorem tile_zero (l : List β) : tile l 0 = [] := rfl
+
+theorem length_repeatEach (l : List β) (n : Nat) : (repeatEach l n).length = l.length * n := by
+  induction l with
+  | nil => simp
+  | cons x xs ih => simp [repeatEach_cons, ih, Nat.succ_mul, Nat.add_comm]
+
+theorem length_tile (l : List β) (n : Nat) : (tile l n).length = n * l.length := by
+  induction n with
+  | zero => simp
+  | succ n ih => simp [tile_succ, ih, Nat.succ_mul, Nat.add_comm]
+
+end Lists
+
+theorem length_mgridI (n1 n2 : Nat) : (mgridI n1 n2).length = n1 * n2 := by
+  simp [mgridI, length_repeatEach]
+
+theorem length_mgridJ (n1 n2 : Nat) : (mgridJ n1 n2).length = n1 * n2 := by
+  simp [mgridJ, length_tile]
+
+/-- `mgrid[0].ravel()` in nested form -/
+theorem mgridI_eq (n1 n2 : Nat) :
+    mgridI n1 n2 = (List.range n1).flatMap fun a => (List.range n2).map fun _ => a := by
+  unfold mgridI repeatEach
+  congr 1
+  funext a
+  simp [List.map_const']
+
+/-- `mgrid[1].ravel()` in nested form -/
+theorem mgridJ_eq (n1 n2 : Nat) :
+    mgridJ n1 n2 = (List.range n1).flatMap fun _ => (List.range n2).map fun b => b := by
+  unfold mgridJ tile
+  induction n1 with
+  | zero => simp
+  | succ n ih =>
+    rw [List.range_succ, List.flatMap_append, ← ih]
+    simp [List.replicate_succ']
+
+/-- adding a constant block-wise: `zipWith (+) (replicate m f) X = X.map (f + ·)` -/
+theorem zipWith_replicate_add (f : Nat) (X : List Nat) :
+    List.zipWith (· + ·) (List.replicate X.length f) X = X.map (f + ·) := by
+  induction X with
+  | nil => rfl
+  | cons x xs ih => simp [List.replicate_succ, ih]
+
+/-- block structure of `np.repeat(fa, m) + np.tile(X, len(fa))` when `len(X) = m` -/
+theorem zipWith_repeat_tile (fa : List Nat) (X : List Nat) :
+    List.zipWith (· + ·) (repeatEach fa X.length) (tile X fa.length) = fa.flatMap fun f => X.map (f + ·) := by
+  induction fa with
+  | nil => simp
+  | cons f fs ih =>
+    rw [repeatEach_cons, List.length_cons, tile_succ, List.zipWith_append (by simp), ih,
+      zipWith_replicate_add]
+    simp
+
+/-- **Index lists of `_create_coo_1d_custom`** in nested-loop form: for span `k`, local row `a`,
+local column `b` (in this order) the COO indices are `first_act1[k] + a`, `first_act2[k] + b`. -/
+theorem cooCustom_eq (n1 n2 : Nat) (fa1 fa2 : List Nat) (h : fa2.length = fa1.length) :
+    cooCustom fa1.length n1 n2 fa1 fa2 =
+      (fa1.flatMap fun f => (List.range n1).flatMap fun a => (List.range n2).map fun _ => f + a,
+       fa2.flatMap fun f => (List.range n1).flatMap fun _ => (List.range n2).map fun b => f + b) := by
+  unfold cooCustom
+  have h1 := zipWith_repeat_tile fa1 (mgridI n1 n2)
+  have h2 := zipWith_repeat_tile fa2 (mgridJ n1 n2)
+  rw [length_mgridI] at h1
+  rw [length_mgridJ, h] at h2
+  rw [h1, h2, mgridI_eq, mgridJ_eq]
+  simp [List.map_flatMap]
+
+/-! ### zips of block lists -/
+
+section Zip
+variable {ι β γ : Type}
+
+theorem zip_flatMap (L : List ι) (f : ι → List β) (g : ι → List γ)
+    (h : ∀ x ∈ L, (f x).length = (g x).length) :
+    (L.flatMap f).zip (L.flatMap g) = L.flatMap fun x => (f x).zip (g x) := by
+  induction L with
+  | nil => rfl
+  | cons x xs ih =>
+    simp only [List.flatMap_cons]
+    rw [List.zip_append (h x (by simp)), ih (fun y hy => h y (by simp [hy]))]
+
+theorem flatMap_eq_range (l : List β) (d : β) (f : β → List γ) :
+    l.flatMap f = (List.range l.length).flatMap fun k => f (l.getD k d) := by
+  induction l using List.reverseRecOn with
+  | nil => rfl
+  | append_singleton xs x ih =>
+    rw [List.flatMap_append, List.length_append, List.length_singleton, List.range_succ, List.flatMap_append, ih]
+    congr 1
+    · apply List.flatMap_congr
+      intro k hk
+      have hk' : k < xs.length := List.mem_range.mp hk
+      simp [List.getD_eq_getElem?_getD, List.getElem?_append_left hk']
+    · simp [List.getD_eq_getElem?_getD]
+
+end Zip
+
+section Knots
+variable {β : Type} [DecidableEq β]
+
+theorem uniqueSorted_length_pos : ∀ (a : β) (l : List β), 0 < (uniqueSorted (a :: l)).length
+  | a, [] => by simp [uniqueSorted]
+  | a, b :: l => by
+      unfold uniqueSorted
+      split
+      · exact uniqueSorted_length_pos b l
+      · simp
+
+theorem length_spanIndicesFrom : ∀ (i : Nat) (l : List β),
+    (spanIndicesFrom i l).length = (uniqueSorted l).length - 1
+  | _, [] => rfl
+  | _, [_] => rfl
+  | i, a :: b :: l => by
+      have ih := length_spanIndicesFrom (i + 1) (b :: l)
+      have hp := uniqueSorted_length_pos b l
+      unfold spanIndicesFrom uniqueSorted
+      split
+      · exact ih
+      · simp only [List.length_cons, ih]; omega
+
+/-- `numspans = len(mesh) - 1` equals the number of span indices (for every list) -/
+theorem length_spanIndices (kv : List β) : (spanIndices kv).length = (uniqueSorted kv).length - 1 :=
+  length_spanIndicesFrom 0 kv
+
+end Knots
+
+section Ring
+variable {α : Type} [CommRing α]
+
+theorem sumRange_eq (n : Nat) (f : Nat → α) : sumRange n f = ∑ t ∈ range n, f t := by
+  unfold sumRange
+  induction n with
+  | zero => simp
+  | succ n ih => rw [List.range_succ, List.map_append, List.sum_append, ih, Finset.sum_range_succ]; simp
+
+theorem cooEntry_append (s t : List (Nat × Nat × α)) (i j : Nat) :
+    cooEntry (s ++ t) i j = cooEntry s i j + cooEntry t i j := by
+  simp [cooEntry, List.sum_append]
+
+/-- duplicate summation distributes over the blocks -/
+theorem cooEntry_flatMap {ι : Type} (L : List ι) (F : ι → List (Nat × Nat × α)) (i j : Nat) :
+    cooEntry (L.flatMap F) i j = (L.map fun x => cooEntry (F x) i j).sum := by
+  induction L with
+  | nil => simp [cooEntry]
+  | cons x xs ih => simp [List.flatMap_cons, cooEntry_append, ih]
+
+theorem cooEntry_map_range (n : Nat) (g : Nat → Nat × Nat × α) (i j : Nat) :
+    cooEntry ((List.range n).map g) i j =
+      ∑ b ∈ range n, if (g b).1 = i ∧ (g b).2.1 = j then (g b).2.2 else 0 := by
+  have := sumRange_eq n (fun b => if (g b).1 = i ∧ (g b).2.1 = j then (g b).2.2 else 0)
+  rw [← this]
+  simp [cooEntry, sumRange, Function.comp_def]
+
+theorem sum_map_range (n : Nat) (f : Nat → α) : ((List.range n).map f).sum = ∑ k ∈ range n, f k :=
+  sumRange_eq n f
+
+/-- a shifted Kronecker delta picks one term of a range sum -/
+theorem sum_range_shift_ite (n f i : Nat) (g : Nat → α) :
+    (∑ a ∈ range n, if f + a = i then g a else 0) = if f ≤ i ∧ i < f + n then g (i - f) else 0 := by
+  by_cases h : f ≤ i ∧ i < f + n
+  · rw [if_pos h]
+    rw [Finset.sum_eq_single (i - f)]
+    · rw [if_pos (by omega)]
+    · intro b _ hb
+      rw [if_neg (by omega)]
+    · intro hb
+      exact absurd (Finset.mem_range.mpr (by omega)) hb
+  · rw [if_neg h]
+    apply Finset.sum_eq_zero
+    intro a ha
+    have := Finset.mem_range.mp ha
+    rw [if_neg (by omega)]
+
+/-- `Σ_{q < m*n} f q = Σ_{k<m} Σ_{t<n} f (n*k+t)` -/
+theorem sum_range_mul (m n : Nat) (f : Nat → α) :
+    ∑ q ∈ range (m * n), f q = ∑ k ∈ range m, ∑ t ∈ range n, f (n * k + t) := by
+  induction m with
+  | zero => simp
+  | succ m ih =>
+    rw [Nat.succ_mul, Finset.sum_range_add, ih, Finset.sum_range_succ]
+    congr 1
+    apply Finset.sum_congr rfl
+    intro t _
+    rw [Nat.mul_comm]
+
+end Ring
+
+end Pyiga.Galerkin
